@@ -33,7 +33,8 @@ def shape_key(c):
 
 def native_run(rt, c):
     if 'fragments' in c and c['fragments']:
-        schema, query = synth.fragment_texts(c['fragments'], use=0 if c['kernel'] != 'typename_search' else None)
+        use = None if c['kernel'] == 'typename_search' else int(c['target'][1:]) if c.get('target', '').startswith('F') else 0
+        schema, query = synth.fragment_texts(c['fragments'], use=use)
     elif 'graph' in c and c['graph']:
         schema, query = synth.input_graph_texts(c['graph'], c.get('start') or c.get('target'))
     else:
@@ -73,12 +74,14 @@ def main():
     for role, cs in by_role.items():
         confirmed = False
         tried = []
+        first_text = None
         for c in cs[:6]:
             r, schema, query = native_run(rt, c)
             replayed += 1
             if r is None:
                 continue
             tried.append(r['status'])
+            first_text = first_text or (r['status'] + ': ' + r['text'][:160].replace('\n', ' ') + ' on ' + query.replace('\n', ' '))
             if r['status'] in ('crash', 'timeout'):
                 out.violation(role, f"the generator {'dies (exit ' + str(r['rc']) + ')' if r['status'] == 'crash' else 'does not finish within 40 s'} on a cyclic input: "
                               + r['text'][-160:].replace('\n', ' '), dict(kind='solver', role=role, kernel=c['kernel'], model=c, schema=schema, query=query, native=r))
@@ -86,7 +89,7 @@ def main():
                 break
         if not confirmed:
             out.inconc(f'{role}: the solver proves non-termination of the kernel but {len(tried)} rendered models end natively with {sorted(set(tried))} '
-                       '(the cyclic state may be unreachable through the public API)')
+                       f'(the cyclic state may be unreachable through the public API); first: {first_text}')
     for w in R.inconclusive:
         out.inconc(w)
     cross = R.cross_check(limit=4 if tier == 'quick' else 20)
